@@ -8,14 +8,14 @@
 EXTENDS XmlScan, IOUtils, Json
 TraceLog == ndJsonDeserialize(IOEnv.REC)
 VARIABLE l
-tvars == <<toks, pos, err, closed, cancelled, pc, nxt, hist, l>>
+tvars == <<toks, pos, err, closed, cancelled, pc, nxt, hist, after, l>>
 Ev == TraceLog[l]
 IsEvent(e) == l <= Len(TraceLog) /\ Ev.e = e /\ l' = l + 1
 LastRec == hist'[Len(hist')]
 TraceInit == l = 1 /\ InitWith(<< >>)
 TraceReset == /\ IsEvent("run") /\ pc = "idle"
               /\ toks' = Ev.toks /\ pos' = 0 /\ err' = "none" /\ closed' = FALSE /\ cancelled' = FALSE
-              /\ pc' = "idle" /\ nxt' = "nil" /\ hist' = << >>
+              /\ pc' = "idle" /\ nxt' = "nil" /\ hist' = << >> /\ after' = 0
 TraceNext ==
   \/ TraceReset
   \/ IsEvent("call") /\ Ev.op = "Scan" /\ CallScan
